@@ -84,6 +84,27 @@ def loop_cancel_items(ctx):
             it['at'] = 'loop n=%d par=%d cancel after %d ms' % (n, par, after)
             it['extra'] = {'timeout_ms': 30000, 'runs': [{'input': it['input'], 'cancel_after_ms': after}]}
             items.append(it)
+        # item plugins that ignore the cancel signal and are only stopped by the closure timeout of THEIR step (300 ms): the
+        # caller's run may not return before they have been stopped
+        for after in ([60] if ctx.quick else [20, 60, 150]):
+            it = check_c13.loop_item(rng, 2, 2, ['success'] * 2)
+            it['subwfs']['sub.yaml']['steps']['w']['fields']['closure_wait_timeout'] = lit(300)
+            for k in range(2):
+                it['script']['w']['exec_by_id']['i%d' % k] = {'hang': True, 'on_cancel': 'ignore', 'out': 'success', 'n': k}
+            it.pop('expect_items', None)
+            it['schedule'] = None
+            it['cancel'] = True
+            it['nomeaning'] = True
+            it['bound_ms'] = GRACE_MS + 300 + 2000 + MARGIN_MS
+            # a sibling step that dies at once when the run is cancelled makes the output impossible: the run has its
+            # verdict (an error) long before the loop has wound down, and must still wait for the loop's plugins
+            it['wf']['steps']['sib'] = {'kind': 'plugin', 'pstep': 'work', 'src': 'sib', 'fields': {'input': tmap({'id': lit('sib')}), 'closure_wait_timeout': lit(0)}}
+            it['wf']['outputs'] = {'success': tmap({'d': ref('steps.loop.outputs.success.data'), 's': ref('steps.sib.outputs.success.tok')})}
+            it['script']['sib'] = {'exec': {'hang': True, 'on_cancel': 'ignore'}}
+            it['oc']['sib'] = okoc()
+            it['at'] = 'loop items ignoring the cancel signal, cancel after %d ms' % after
+            it['extra'] = {'timeout_ms': 30000, 'runs': [{'input': it['input'], 'cancel_after_ms': after}]}
+            items.append(it)
         # loops inside loop items (three levels of engine runs): cancelling the caller must reach the innermost plugins
         for after in ([40] if ctx.quick else [5, 40, 90]):
             it = check_c13.nested_loop_item(rng, 2, ['success', 'success', 'success'], par=1)
